@@ -54,6 +54,10 @@ def constValue (signedValue : Int) (unsigned : Bool) (size : Nat) (bits : Option
 
 /-- the C conversion of a mathematical integer to an integer type of `bits` bits -/
 def wrapC (bits : Nat) (signed : Bool) (v : Int) : Int :=
-  if signed then Int.bmod v (2 ^ bits) else v % 2 ^ bits
+  if signed then Int.bmod v (2 ^ bits) else v % ((2 ^ bits : Nat) : Int)
+
+/-- the value range of a C integer type of `bits` bits -/
+def cRange (bits : Nat) (unsigned : Bool) : Int × Int :=
+  if unsigned then (0, 2 ^ bits - 1) else (-(2 ^ (bits - 1)), 2 ^ (bits - 1) - 1)
 
 end Cppcheck.Trunc
